@@ -226,6 +226,11 @@ class CoercerMethod(DeserializationMethod):
     method: DeserializationMethod
 
     def deserialize(self, data: Any) -> Any:
+        if isinstance(data, Discriminated):
+            # alternative of a discriminated union: coerce the wrapped data
+            return self.method.deserialize(
+                Discriminated(data.discriminator, self.coercer(self.cls, data.data))
+            )
         return self.method.deserialize(self.coercer(self.cls, data))
 
 
